@@ -184,6 +184,14 @@ func c06_2(c *core.Ctx, p *core.Prog) {
 	}
 	fn := m.enqueueFn
 	sel := m.enqueueSelect
+	if sel == nil {
+		pos := p.Pos(fn.Pos())
+		if m.enqueueSend != nil {
+			pos = p.Pos(m.enqueueSend.Pos())
+		}
+		c.Viol("enqueue|select", pos, core.FuncName(fn), "the request is enqueued with a bare channel send instead of a select with the caller's ctx.Done(): a caller parked behind a full queue (the shard is waiting for an export slot) no longer watches its context — its cancellation or deadline is not reported until downstream makes progress")
+		return
+	}
 	early := m.earlyField()
 	var ctxP *ssa.Parameter
 	for _, pr := range fn.Params {
